@@ -1118,6 +1118,56 @@ mod if_alloc {
             }
         }
 
+        /// Verification hook: keeps the shared state alive and observable
+        /// without counting as a sender or receiver handle.
+        #[cfg(futures_intrusive_verif)]
+        pub struct VerifPeek<MutexType, T, A>
+        where
+            MutexType: RawMutex,
+            A: RingBuf<Item = T>,
+            T: 'static,
+        {
+            inner: alloc::sync::Arc<GenericChannelSharedState<MutexType, T, A>>,
+        }
+
+        #[cfg(futures_intrusive_verif)]
+        impl<MutexType, T, A> VerifPeek<MutexType, T, A>
+        where
+            MutexType: RawMutex,
+            A: RingBuf<Item = T>,
+        {
+            /// Verification hook: snapshot of the channel plus handle counts
+            pub fn verif_snapshot(
+                &self,
+                id: &dyn Fn(&T) -> u64,
+            ) -> crate::verif::Snapshot {
+                let mut snap = self.inner.channel.verif_snapshot(id);
+                snap.flags.push((
+                    "senders",
+                    self.inner.senders.load(Ordering::SeqCst) as u64,
+                ));
+                snap.flags.push((
+                    "receivers",
+                    self.inner.receivers.load(Ordering::SeqCst) as u64,
+                ));
+                snap
+            }
+        }
+
+        #[cfg(futures_intrusive_verif)]
+        impl<MutexType, T, A> GenericSender<MutexType, T, A>
+        where
+            MutexType: RawMutex,
+            A: RingBuf<Item = T>,
+        {
+            /// Verification hook: an uncounted reference to the shared state
+            pub fn verif_peek(&self) -> VerifPeek<MutexType, T, A> {
+                VerifPeek {
+                    inner: self.inner.clone(),
+                }
+            }
+        }
+
         #[cfg(futures_intrusive_verif)]
         impl<MutexType, T, A> SharedStream<MutexType, T, A>
         where
